@@ -164,10 +164,14 @@ func parseSettingsFromRaw(base serverSettings, raw interface{}) serverSettings {
 	if !ok {
 		return normalizeServerSettings(settings)
 	}
-	if nested, ok := rawMap["hledger"]; ok {
+	// Settings may arrive inside a "hledger" section, next to one, or both. The
+	// members of this object are read first and the section, the documented home
+	// of the settings, on top of them; a "hledger" member that is not an object
+	// holds no settings and hides nothing.
+	settings = applySettingsMap(settings, rawMap)
+	if nested, ok := rawMap["hledger"].(map[string]interface{}); ok {
 		return parseSettingsFromRaw(settings, nested)
 	}
-	settings = applySettingsMap(settings, rawMap)
 	return normalizeServerSettings(settings)
 }
 
